@@ -4,7 +4,8 @@
 set -u
 NAME=$1; ID=${NAME%%-*}; shift; CHECKS=${@:-$ID}
 OUT=/verif/seeded/$NAME
-S=/var/tmp/pd-seed-$ID; rm -rf $S; cp -r /repo $S; git -C $S apply $OUT/patch.diff || { echo "patch does not apply"; rm -rf $S; exit 2; }
+PP=$OUT/patch.diff; for q in $OUT/patch_rebased_on_F30_fix.diff $OUT/patch_rebased.diff; do [ -f $q ] && PP=$q; done
+S=/var/tmp/pd-seed-$ID; rm -rf $S; cp -r /repo $S; git -C $S apply $PP || { echo "patch does not apply"; rm -rf $S; exit 2; }
 cd /verif; RES=""
 for c in $CHECKS; do
   VERIF_REPO=$S VERIF_BUILD=/verif/build/seed_$ID VERIF_EVIDENCE=$OUT/evidence VERIF_REPLAYS=$OUT/replays ./check $c > $OUT/check_$c.txt 2>&1; rc=$?
